@@ -12,6 +12,7 @@ decimal context is per-thread state that arithmetic must leave unchanged.
 import decimal
 import itertools
 from fractions import Fraction
+import math
 
 from ..core import runner, snapshot
 from ..model import exactnum as X
@@ -207,6 +208,37 @@ def work(task):
                     expect_bool(res, f'{a} + {b} == {c}', s == fc, 'cmp-sum')
                     expect_bool(res, f'{a} + {b} < {c}', s < fc, 'cmp-sum')
                     res.count('triples')
+    elif kind == 'ties':
+        # double rounding: exact results that sit a hair above / below a 28-digit tie; any intermediate rounding to MORE than 28
+        # digits (40, 56, 100 ...) followed by the final one lands on the tie and goes the other way
+        def dec_text(fr):
+            n, d = fr.numerator, fr.denominator
+            k = 0
+            while d != 1:
+                n, d, k = n * 10, d, k + 1
+                g = math.gcd(n, d)
+                n, d = n // g, d // g
+            t = str(n).rjust(k + 1, '0')
+            return (t[:-k] + '.' + t[-k:]) if k else t
+        for base in ('1.0000000000000000000000000005', '1.0000000000000000000000000015', '9999999999999999999999999999.5',
+                     '0.00012345678901234567890123456785', '3.0000000000000000000000000025'):
+            fb = X.literal(base)
+            for K in (30, 40, 57, 60, 100, 300):
+                tiny = '0.' + '0' * K + '1'
+                ft = X.literal(tiny)
+                progs = [(f'{base} + {tiny}', X.add(fb, ft)), (f'{tiny} + {base}', X.add(ft, fb)), (f'{base} - {tiny}', X.sub(fb, ft)),
+                         (f'{base} * 1.{"0" * K}1', X.mul(fb, X.literal('1.' + '0' * K + '1'))),
+                         (f'{base} * 0.{"9" * K}', X.mul(fb, X.literal('0.' + '9' * K))),
+                         (f'{base} / 0.{"9" * K}', X.div(fb, X.literal('0.' + '9' * K))),
+                         (f'{base} / 1.{"0" * K}1', X.div(fb, X.literal('1.' + '0' * K + '1')))]
+                for d in (3, 7, 11):
+                    for sign in (1, -1):
+                        num = fb * d + sign * ft
+                        progs.append((f'{dec_text(num)} / {d}', X.div(num, Fraction(d))))
+                        progs.append((f'x = {dec_text(num)}; x /= {d}; x', X.div(num, Fraction(d))))
+                for text, want in progs:
+                    expect_number(res, text, want, 'tie' + text.replace(base, '').strip()[:1] if not text.startswith('x =') else 'tie/=')
+                res.count('pairs')
     elif kind == 'ints':
         # Python ints enter through len(): int / int must be decimal division too
         for i in range(0, 8):
@@ -268,6 +300,7 @@ def main(tier, seed, t0):
     for i in range(0, len(allv), 8):
         tasks.append(('builtins', allv[i:i + 8], red))
     tasks.append(('ints',))
+    tasks.append(('ties',))
     tasks = runner.rotate(tasks, seed)
     total = runner.run_tasks(work, tasks)
     n = total.n
